@@ -20,7 +20,10 @@
     * `idstar_zero_line2_sound_partial`   Zero returned by line 2 (possibly after line 3) is a sound answer
     * `districts_ge_two`, `idstar_no_runtime_error`   the `RuntimeError` of line 6 is unreachable
     * `idstar_error_taxonomy`   with an acyclic input graph the only outcomes are an estimand, Zero, 'unidentifiable',
-                                or the two internal conditions `fuel` / null counterfactual graph (see OPEN below)
+                                or the two internal conditions `fuel` / null counterfactual graph
+    * `idstar_error_taxonomy_wf`, `idstar_nonempty_graph`
+                                for a well-formed event dict the null-graph condition is excluded too: estimand, Zero,
+                                'unidentifiable' or `fuel` (see OPEN `idstar_terminates`), nothing else
     * `idstar_fuel_mono`        more fuel never changes an answer that was reached
     * vocabulary (C06 part): Props/C06Cf.lean
 
@@ -37,11 +40,11 @@
   --     proved: the line-3 recursion (at most once, strictly smaller event); the line-6 recursion on the original graph
   --     is only shown to be well defined for every fuel and monotone in the fuel; that `2|V| + |event| + 4` always
   --     suffices is checked on every generated input by the correspondence (the model would answer `internal fuel`).
-  --   theorem idstar_nonempty_graph : … ≠ .error (.internal "NetworkXPointlessConcept")
 -/
 import Y0.Model.IdStar
 import Y0.Lemmas.CfFscm
 import Y0.Lemmas.CfIdStar
+import Y0.Lemmas.CfNsi
 
 namespace Y0.Cf
 open Fscm
@@ -167,6 +170,26 @@ theorem idstar_line3_once (rec : Event → Except Err Expr) (ev : Event) (h2 : v
   unfold idStarBody
   rw [violates_removeTautologies ev h2, removeTautologies_idem, hself]
   simp
+
+/-- **Sharpened error taxonomy** for well-formed input: on an acyclic graph, for an event dict without repeated keys whose
+values are named after their variables (`EvOK`), with the worlds iterated as a duplicate-free list of non-empty subscript
+sets (`GoodOrder`), ID* returns an estimand / Zero, refuses with `unidentifiable`, or exhausts the model's fuel —
+nothing else, for every fuel.  In particular the counterfactual graph handed to `nx.is_connected` is never null
+(`idstar_nonempty_graph`). -/
+theorem idstar_error_taxonomy_wf {ordf : List World → List World} (hord : GoodOrder ordf) {dordf : List Var → List Var}
+    (hdo : SubsetOrder dordf) (topo : List Name) (hG : G.topologicalSort = .ok topo) (ev : Event) (hok : EvOK ev)
+    (e : Err) (h : idStar ordf dordf G ev = .error e) : e = .unidentifiable ∨ e = .internal "fuel" :=
+  idStarFuel_error' hord hdo G topo hG _ ev hok e h
+
+/-- after lines 1–3 the non-self-intervened part of the counterfactual graph contains an event variable: `nx.is_connected`
+is never called on the null graph -/
+theorem idstar_nonempty_graph {ordf : List World → List World} (hord : GoodOrder ordf) (ev nev : Event) (g : MG Var)
+    (hne : ev ≠ []) (h2 : violatesEffectiveness ev = false) (h3 : Event.eqv (removeTautologies ev) ev = true)
+    (hok : EvOK ev) (h : makeCounterfactualGraph ordf G ev = .ok (g, some nev)) : (nsiSubgraph g).nodes ≠ [] :=
+  cg_nsi_nonempty hord h (keysNSI_of_lines123 ev hne h2 h3 hok) hok
+
+/-- `GoodOrder` is satisfiable: the identity order (the worlds in order of first occurrence) -/
+example : GoodOrder id := fun vs => extractInterventions_ok vs
 
 /-! ## 4. non-vacuity: concrete runs of the model (kernel-evaluated) -/
 
